@@ -1578,10 +1578,18 @@ func (d *DFA) checkEOIMatch(state *State) bool {
 		return containsNFAMatch(d.nfa, state.NFAStates())
 	}
 
-	// Create a temporary builder for EOI resolution
-	// Use NewBuilderWithWordBoundary to avoid O(states) scan per call (Issue #105)
-	builder := NewBuilderWithWordBoundary(d.nfa, d.config, d.hasWordBoundary)
-	return builder.CheckEOIMatch(state.NFAStates(), state.IsFromWord())
+	// The answer is a function of the state's NFA states and word context only,
+	// so resolve it once per state and remember it there: the state belongs to the
+	// caller's cache and is dropped with it when the cache is cleared. Searches
+	// that end at end of input in a known state stay allocation-free.
+	if !state.eoiChecked {
+		// Create a temporary builder for EOI resolution
+		// Use NewBuilderWithWordBoundary to avoid O(states) scan per call (Issue #105)
+		builder := NewBuilderWithWordBoundary(d.nfa, d.config, d.hasWordBoundary)
+		state.eoiMatch = builder.CheckEOIMatch(state.NFAStates(), state.IsFromWord())
+		state.eoiChecked = true
+	}
+	return state.eoiMatch
 }
 
 // checkWordBoundaryMatch checks if resolving word boundary assertions with
